@@ -641,6 +641,13 @@ class Ev:
             return BoundLib("numpy.conj", v)
         if isinstance(v, ArrV) and name == "reshape":
             return BoundLib("numpy.reshape", v)
+        if isinstance(v, WhereV) and name == "item":
+            c = v.cond
+            if isinstance(c, CondV) and c.op == "==" and is_sym(c.rhs) and sp.sympify(c.rhs) == 0 and is_sym(c.lhs) \
+                    and any(str(x_) in MAYBE_ZERO_ATOMS for x_ in sp.sympify(c.lhs).free_symbols):
+                # positions where the temperature is zero: none on a grid that starts above 0 K (a valid configuration), one otherwise
+                raise RaisedV("EmptySelection", f"{mod.rel}:{getattr(node, 'lineno', 0)}" if mod else "")
+            raise self.err(".item() of the positions selected by a data condition", node, mod)
         if isinstance(v, ArrV) and name == "swapaxes":
             return BoundLib("numpy.swapaxes", v)
         if isinstance(v, ArrV) and name in ("real", "imag"):
@@ -4934,6 +4941,15 @@ def lib_swapaxes(ev, a, k, n, mod):
 
 lib_swapaxes.kw = {"axis1", "axis2"}
 LIB.setdefault("numpy.swapaxes", lib_swapaxes)
+def lib_flatnonzero(ev, a, k, n, mod):
+    """numpy.flatnonzero(condition on a grid vector): the positions where it holds - as a store index the same selection as numpy.where(condition)"""
+    if len(a) == 1 and isinstance(a[0], CondV):
+        return WhereV(a[0])
+    raise ev.err("numpy.flatnonzero of something that is not a condition on a grid vector", n, mod)
+
+
+lib_flatnonzero.kw = set()
+LIB.setdefault("numpy.flatnonzero", lib_flatnonzero)
 LIB.setdefault("numpy.absolute", lib_abs)
 LIB.setdefault("numpy.fabs", lib_abs)
 LIB.setdefault("numpy.diag", lib_diag)
